@@ -11,6 +11,7 @@ from .. import filtgen, gen, monitor
 from ..common import rng_for, split
 from ..oracle.stft_ref import rebuild_full
 
+OPTIMIZED_SHARDS = 1  # shards run once more in an interpreter started with -O (vf/run.py)
 LEVEL = "exploration"
 TECHNIQUE = "runtime monitor on get_truncated_response: documented rebuild recipe vs get_frequency_response (full / half), index-range, symmetry and finiteness invariants"
 RULE = (
